@@ -85,21 +85,5 @@ def check(R, F):
     R.require(ok, 'longest-match', 'db::hash_map_tree::catalog::lookup_in_class|deeper-first', lic.where(), 'deeper match preferred', 'lookup_in_class no longer prefers the deeper match')
 
     # ---- (e) suffix matching is label-wise
-    es = F.fn('name::Name::eq_or_subdomain_of')
-    seq = [paths.short(callee_name(t)) for b, t in es.calls()]
-    cl = F.closures_of(es.gpath)
-    lab = [c.gpath for c in cl for b, t in c.calls() if 'Label as std::cmp::PartialEq' in callee_name(t) or callee_name(t).endswith('PartialEq<&B> for &A>::eq')]
-    raw = sorted({paths.short(callee_name(t)) for f in [es] + cl for b, t in f.calls() if re.search(r'wire_repr|eq_ignore_ascii_case|to_ascii_|Index<|::get$|::ends_with|::starts_with', callee_name(t))})
-    ok = seq.count('Name::labels') == 2 and seq.count('Iterator::rev') == 2 and 'Iterator::zip' in seq and 'Iterator::all' in seq and seq.count('Name::len') == 2 and bool(lab) and not raw
-    R.require(ok, 'label-suffix', es.gpath, es.where(), 'label counts compared, then labels right to left through Label::eq',
-              'Name::eq_or_subdomain_of is not a right-to-left label-by-label comparison (calls: %s; raw octet operations: %s): an octet-suffix match is not a label-suffix match' % (seq, raw))
-    sz = F.fn('<db::single_zone_catalog::SingleZoneCatalog<Z> as db::catalog::Catalog>::lookup') if F.maybe('<db::single_zone_catalog::SingleZoneCatalog<Z> as db::catalog::Catalog>::lookup') else None
-    if sz is None:
-        cands = F.find(lambda f: 'single_zone_catalog' in f.gpath and f.gpath.endswith('::lookup'))
-        sz = cands[0] if cands else None
-    ok = sz is not None
-    if ok:
-        sq = [paths.short(callee_name(t)) for f in [sz] + F.closures_of(sz.gpath) for b, t in f.calls()]
-        ok = 'Name::eq_or_subdomain_of' in sq and any('Class' in x and x.endswith('eq') for x in sq)
-    R.require(ok, 'label-suffix', 'db::single_zone_catalog|lookup', sz.where() if sz else '', 'SingleZoneCatalog::lookup = class test and eq_or_subdomain_of(entry name)', 'SingleZoneCatalog::lookup does not select by class and Name::eq_or_subdomain_of')
-    R.floor('label-suffix', 2)
+    from rules.name_rules import check_label_suffix
+    check_label_suffix(R, F)
